@@ -125,6 +125,8 @@ def spec_parse(stream):
         texts.append(m.group(3))
         pos = nl + 1
         if m.group(2) != b'-':
+            if not (b'1' <= code[:1] <= b'5'):
+                return ('bad',)          # a reply code is 1xx..5xx; anything else is not a reply
             try:
                 return ('ok', code.decode('ascii'), b'\r\n'.join(texts).decode('utf-8'), stream[pos:])
             except UnicodeDecodeError:
